@@ -289,7 +289,7 @@ theorem Timed.inv_step (max probes : Nat) (hmax : 1 ≤ max) (s : Timed) (op : T
     split
     · split
       · apply Timed.inv_expire
-        have hm : (s.dl.map fun e => if (e.1 == c) = true then (c, s.now + 30) else e).map (·.1) = s.dl.map (·.1) := by
+        have hm : (s.dl.map fun e => if (e.1 == c) = true then (c, s.now + timeout .udp) else e).map (·.1) = s.dl.map (·.1) := by
           rw [List.map_map]
           apply List.map_congr_left
           intro e _
@@ -299,7 +299,7 @@ theorem Timed.inv_step (max probes : Nat) (hmax : 1 ≤ max) (s : Timed) (op : T
           · rfl
         refine ⟨hT, by rw [hm]; exact hd, ?_⟩
         intro e he
-        have : e.1 ∈ (s.dl.map fun e => if (e.1 == c) = true then (c, s.now + 30) else e).map (·.1) :=
+        have : e.1 ∈ (s.dl.map fun e => if (e.1 == c) = true then (c, s.now + timeout .udp) else e).map (·.1) :=
           List.mem_map.mpr ⟨e, he, rfl⟩
         rw [hm] at this
         obtain ⟨e0, he0, h0e⟩ := List.mem_map.mp this
@@ -452,12 +452,12 @@ theorem C06_distinct_timed (max probes : Nat) (hmax : 1 ≤ max) (now : Nat) (op
 
 /-- A datagram from a source with an association refreshes it before the sweep of the same
 handler: however long the source was silent, the association is still held afterwards, with a
-deadline 30 s ahead, and its id is still registered. -/
+deadline the UDP timeout (30 s) ahead, and its id is still registered. -/
 theorem C06_refresh_survives_sweep (max probes : Nat) (hmax : 1 ≤ max) (s : Timed) (h : s.Inv max) (c : Nat)
     (hs : (s.step max probes (.again c)).2 = .sent c) :
-    (c, s.now + 30) ∈ (s.step max probes (.again c)).1.dl ∧ c ∈ (s.step max probes (.again c)).1.t.ids := by
+    (c, s.now + Generated.CLIENT_UDP_TIMEOUT) ∈ (s.step max probes (.again c)).1.dl ∧ c ∈ (s.step max probes (.again c)).1.t.ids := by
   have hinv := Timed.inv_step max probes hmax s (.again c) h
-  have hmem : (c, s.now + 30) ∈ (s.step max probes (.again c)).1.dl := by
+  have hmem : (c, s.now + Generated.CLIENT_UDP_TIMEOUT) ∈ (s.step max probes (.again c)).1.dl := by
     simp only [Timed.step] at hs ⊢
     cases hf : s.t.live.find? (·.1 == c) with
     | none => rw [hf] at hs; cases hs
@@ -472,7 +472,7 @@ theorem C06_refresh_survives_sweep (max probes : Nat) (hmax : 1 ≤ max) (s : Ti
         cases hany : s.dl.any (·.1 == c) with
         | false => rw [hany] at hs; cases hs
         | true =>
-          simp only [↓reduceIte, Timed.expire]
+          simp only [↓reduceIte, Timed.expire, timeout]
           simp only [List.any_eq_true, beq_iff_eq] at hany
           obtain ⟨e, he, hec⟩ := hany
           simp only [List.mem_filter, Bool.not_eq_eq_eq_not, Bool.not_true, decide_eq_false_iff_not]
